@@ -91,8 +91,9 @@ def bounds_text(tier):
     n = 2 if tier == 'quick' else 3
     return (f'pool a:ca b:cb (symbolic >= 1); every sequence of {n} operations (starting with a registration or a reservation, '
             f'containing a registration) over register-waiter (log / reserve-inside / register-another callback), add capacity, '
-            f'reserve, release, complete-instant, advance-clock, followed by a clock advance; plus 8 hand-picked sequences of '
-            f'5-8 operations with two and three waiters; all amounts and durations symbolic')
+            f'reserve, release, complete-instant, advance-clock, followed by a clock advance; plus hand-picked sequences of '
+            f'4-8 operations with two-entry requests, two and three waiters, and callbacks that release a reservation or add '
+            f'capacity from inside the check ({len(_seqs(tier))} analyses in total); all amounts and durations symbolic')
 
 
 def required_goals(tier):
